@@ -4,6 +4,7 @@ import (
 	"go/ast"
 	"go/token"
 	"go/types"
+	"sort"
 	"strings"
 
 	"golang.org/x/tools/go/cfg"
@@ -407,6 +408,43 @@ func ru4KeysUnconditional(w *World) {
 				if len(fl.Body.List) == 1 {
 					if r, ok := fl.Body.List[0].(*ast.ReturnStmt); ok && len(r.Results) == 1 {
 						key = "key-unconditional|" + types.ExprString(r.Results[0])
+						// the projection must not merge several fields through a selecting call
+						// (cmp.Or(d.tag, d.message), min/max, a ternary helper): two diagnostics that
+						// differ only in the shadowed field then compare equal
+						merged := ""
+						ast.Inspect(r.Results[0], func(y ast.Node) bool {
+							c, ok := y.(*ast.CallExpr)
+							if !ok || len(c.Args) < 2 || merged != "" {
+								return true
+							}
+							if tv, ok := info.Types[c.Fun]; ok && tv.IsType() {
+								return true
+							}
+							fieldsSeen := map[string]bool{}
+							for _, a := range c.Args {
+								ast.Inspect(a, func(z ast.Node) bool {
+									if sel, ok := z.(*ast.SelectorExpr); ok {
+										if v, ok := info.Uses[sel.Sel].(*types.Var); ok && v.IsField() {
+											fieldsSeen[v.Name()] = true
+										}
+									}
+									return true
+								})
+							}
+							if len(fieldsSeen) >= 2 {
+								var fs []string
+								for f := range fieldsSeen {
+									fs = append(fs, f)
+								}
+								sort.Strings(fs)
+								merged = types.ExprString(c) + " (fields " + strings.Join(fs, ", ") + ")"
+							}
+							return true
+						})
+						if merged != "" {
+							w.violation(key, fl.Pos(), "the key merges several fields of the diagnostic into one value through "+merged+": a selecting combinator is not a lexicographic pair, so two diagnostics that differ only in the field that is shadowed compare equal — the stable sort keeps them in arrival order, and de-duplication keeps whichever arrived last")
+							return true
+						}
 						w.ok(key, fl.Pos(), "the key is a plain projection of the diagnostic")
 						return true
 					}
